@@ -95,6 +95,33 @@ func LoadProg(repo, verif string) (*Prog, error) {
 			P.fnByKey[k] = f
 		}
 	}
+	// declared methods of clover's named types that nothing in the loaded packages calls (e.g. the criteria builders
+	// of the unexported type query.field) are not among AllFunctions: add them, they can be put under contract too
+	for _, sp := range P.pkgs {
+		if !strings.HasPrefix(sp.Pkg.Path(), modPath) {
+			continue
+		}
+		scope := sp.Pkg.Scope()
+		for _, name := range scope.Names() {
+			tn, ok := scope.Lookup(name).(*types.TypeName)
+			if !ok {
+				continue
+			}
+			named, ok := tn.Type().(*types.Named)
+			if !ok {
+				continue
+			}
+			for i := 0; i < named.NumMethods(); i++ {
+				if f := prog.FuncValue(named.Method(i)); f != nil {
+					if k := P.FnKey(f); k != "" {
+						if _, have := P.fnByKey[k]; !have {
+							P.fnByKey[k] = f
+						}
+					}
+				}
+			}
+		}
+	}
 	P.scanGlobals()
 	P.scanAddrFields()
 	P.scanFinalCaptures()
